@@ -408,6 +408,97 @@ theorem pep621_entry_selected_iff (text : String) (d : Dep) (h : createFromPep50
 /-- the groups `convert_markers` reports for `extra != "x"` record no membership (the witness of ad4e259) -/
 example : inExtrasOf [[("!=", "x")]] = [] := by decide
 
+/-! ## two seeded classes, named -/
+
+/-- **whether `to_pep_508` appends the membership clause depends on the marker's VARIABLES, not on its text**
+(`convert_markers(marker)` has no `extra` entry ⇒ the clause `extra == …` of `in_extras` is appended, whatever letters
+the marker's text contains).  Seed C02-4 replaced the test by a substring test on the text: a marker whose VALUE holds
+the letters `extra` then lost the clause. -/
+theorem toPep508_membership_not_by_text (d : Dep) (base mt clause : String) (gc : Generic.GC)
+    (hb : d.basePep508Name = .ok base) (hany : d.marker.isAny = false) (hne : d.marker.isEmpty = false)
+    (ht : d.marker.toStr = .ok mt) (hx : convertMarkersFor "extra" d.marker = .ok none)
+    (hin : (joinWith " || " d.inExtras != "") = true)
+    (hgc : Generic.parseConstraint (joinWith " || " d.inExtras) = .ok gc) (hcl : nestedGC "extra" gc = .ok clause) :
+    d.toPep508 = .ok (base ++ " ; " ++ ("(" ++ mt ++ ")" ++ " and " ++ ("(" ++ clause ++ ")"))) := by
+  simp [Dep.toPep508, hb, hany, hne, ht, hx, hin, hgc, hcl, joinWith, bind, Except.bind, pure, Except.pure]
+
+/-- … and a marker that does have an `extra` variable never gets a second clause -/
+theorem toPep508_no_second_extra_clause (d : Dep) (base mt : String) (groups : List (List (String × String)))
+    (hb : d.basePep508Name = .ok base) (hany : d.marker.isAny = false) (hne : d.marker.isEmpty = false)
+    (ht : d.marker.toStr = .ok mt) (hx : convertMarkersFor "extra" d.marker = .ok (some groups)) :
+    d.toPep508 = .ok (base ++ " ; " ++ mt) := by
+  simp [Dep.toPep508, hb, hany, hne, ht, hx, joinWith, bind, Except.bind, pure, Except.pure]
+
+/-- the instance of seed C02-4: `implementation_name == "extrapy"` mentions no variable `extra` -/
+private def mExtrapy : M :=
+  .leaf (.single ⟨"implementation_name", "==", "extrapy", false, .gen (.atom ⟨"extrapy", .eq, false⟩)⟩)
+
+theorem extrapy_marker_has_no_extra_variable :
+    convertMarkersFor "extra" mExtrapy = .ok none ∧ (M.toStr mExtrapy).toOption = some "implementation_name == \"extrapy\"" ∧
+    Generic.strIn "extra" "implementation_name == \"extrapy\"" = true := by
+  refine ⟨?_, by decide +kernel, by decide +kernel⟩
+  have hd : dnf defaultFuel [] mExtrapy = .ok mExtrapy := by
+    unfold defaultFuel mExtrapy
+    rw [dnf]
+    all_goals (intro ms h; cases h)
+  unfold convertMarkersFor
+  rw [hd]
+  simp [bind, Except.bind, pure, Except.pure, membersIfUnion, mExtrapy, conjPairs, convKey, Leaf.name]
+
+private theorem ok_of_toOption {α : Type} {x : PyM α} {a : α} (h : x.toOption = some a) : x = .ok a := by
+  cases x with
+  | error e => cases h
+  | ok b => simp [Except.toOption] at h; rw [h]
+
+private def dExtrapy : Dep :=
+  { spec := { prettyName := "foo", name := "foo", sourceType := none, sourceUrl := none, sourceReference := none,
+              sourceResolvedReference := none, sourceSubdirectory := none, features := [] },
+    constraint := VC.any, prettyConstraint := "*", marker := mExtrapy, pythonVersions := "*",
+    pythonConstraint := VC.any, inExtras := ["x"], optional := true, activated := false, kind := .registry }
+
+/-- **the `decide`d instance**: a member of extra `x` whose marker is `implementation_name == "extrapy"` — the text
+contains the letters `extra`, the marker has no such variable — is printed WITH its membership clause -/
+theorem extrapy_keeps_membership_clause :
+    dExtrapy.toPep508 = .ok "foo ; (implementation_name == \"extrapy\") and (extra == \"x\")" := by
+  have hb : dExtrapy.basePep508Name = .ok "foo" := ok_of_toOption (by decide +kernel)
+  have ht : dExtrapy.marker.toStr = .ok "implementation_name == \"extrapy\"" :=
+    ok_of_toOption extrapy_marker_has_no_extra_variable.2.1
+  have hgc : Generic.parseConstraint (joinWith " || " dExtrapy.inExtras) = .ok (.atom ⟨"x", .eq, false⟩) :=
+    ok_of_toOption (by decide +kernel)
+  have hcl : nestedGC "extra" (.atom ⟨"x", .eq, false⟩) = .ok "extra == \"x\"" := ok_of_toOption (by decide +kernel)
+  have := toPep508_membership_not_by_text dExtrapy "foo" _ _ _ hb rfl rfl ht extrapy_marker_has_no_extra_variable.1
+    (by decide +kernel) hgc hcl
+  rw [this]
+  congr 1
+
+/-- **two declarations of one distribution are both written** (`[tool.poetry.dependencies] foo = [{…}, {…}]`, the
+"multiple constraints" form: same name, same version, different `python`): `Metadata.from_package` prints every
+selected dependency object, and `requiresDist` keeps each declaration's own line, in order — nothing is merged or
+de-duplicated by name (seed C14-4 dropped the second) -/
+theorem multiple_constraints_both_kept (D1 D2 : Decl) (t1 t2 : String)
+    (h1 : requiresDistLine D1 = .ok (some t1)) (h2 : requiresDistLine D2 = .ok (some t2)) :
+    Dep02.requiresDist [D1, D2] = .ok [t1, t2] := by
+  simp [Dep02.requiresDist, h1, h2, bind, Except.bind, pure, Except.pure]
+
+/-- in general: every declaration that has a line of its own has it in Requires-Dist, whatever else is declared -/
+theorem legacy_declaration_kept (ds : List Decl) (ls : List String) (h : Dep02.requiresDist ds = .ok ls)
+    (D : Decl) (hD : D ∈ ds) (t : String) (ht : requiresDistLine D = .ok (some t)) : t ∈ ls := by
+  unfold Dep02.requiresDist at h
+  cases hm : ds.mapM requiresDistLine with
+  | error e => simp [hm, bind, Except.bind] at h
+  | ok os =>
+    simp only [hm, bind, Except.bind, pure, Except.pure, Except.ok.injEq] at h
+    subst h
+    obtain ⟨o, ho, hf⟩ := Proj621.mapM_ok_mem requiresDistLine ds os hm D hD
+    rw [ht] at hf
+    cases hf
+    exact List.mem_filterMap.mpr ⟨some t, ho, rfl⟩
+
+/-- non-vacuity: two declarations of `foo` that differ only in `python` (evaluated on the selection level; the lines
+themselves run through the marker algebra, which the correspondence stream `gen` evaluates) -/
+example : (⟨"foo", ">=1", some ">=3.8,<3.10", none, none, [], false, []⟩ : Decl).name =
+    (⟨"foo", ">=1", some ">=3.10", none, none, [], false, []⟩ : Decl).name := rfl
+
 /-! ## Provides-Extra -/
 
 /-- **Provides-Extra lists exactly the declared extras, normalised, once each** -/
